@@ -15,7 +15,7 @@ class OutOfScope(Exception):
     """the stream declares sizes above the property's 'modest bounds'"""
 
 
-class Timeout(Exception):
+class Timeout(BaseException):  # not an Exception: the code under test may catch Exception broadly
     pass
 
 
@@ -122,9 +122,12 @@ def _int_fields(node, path, out):
         out.append(path)
 
 
-def mutate_fields(rng, data):
-    """deserialise, change one or two header/parameter fields, serialise again (None if that fails)"""
-    from vc2_conformance.bitstream import BitstreamReader, BitstreamWriter, Deserialiser, Serialiser, parse_stream
+def mutate_fields(rng, data, again=0.45):
+    """deserialise, change one or two header/parameter fields, serialise again (None if that fails).
+    Fields that a changed flag newly requires are filled in from the default-value table, and with
+    probability `again` the result is mutated once more - so that e.g. a custom colour specification is first
+    switched on and its (then present) index fields are changed afterwards."""
+    from vc2_conformance.bitstream import BitstreamReader, BitstreamWriter, Deserialiser, Serialiser, parse_stream, vc2_default_values
     from vc2_conformance.pseudocode.state import State
 
     try:
@@ -148,10 +151,25 @@ def mutate_fields(rng, data):
                 node[p[-1]] = type(old)(rng.choice(INTERESTING + [int(old) + 1, max(0, int(old) - 1)])) if type(old) is int else rng.choice(INTERESTING)
         f = BytesIO()
         w = BitstreamWriter(f)
-        with Serialiser(w, ctx) as ser:
-            parse_stream(ser, State())
+        # (with defaults available an enlarged dimension makes the serialiser invent a whole picture: bound the time)
+        signal.signal(signal.SIGALRM, _alarm)
+        signal.alarm(2)
+        try:
+            with Serialiser(w, ctx, vc2_default_values) as ser:
+                parse_stream(ser, State())
+        except Timeout:
+            return None
+        finally:
+            signal.alarm(0)
         w.flush()
-        return f.getvalue()
+        out = f.getvalue()
+        if len(out) > 20000:
+            return None
+        if rng.random() < again:
+            m = mutate_fields(rng, out, again=again / 2)
+            if m is not None:
+                return m
+        return out
     except Exception:  # noqa - the edited description does not serialise
         return None
 
